@@ -33,7 +33,17 @@ class BuiltinMixin:
             self.externals_used.add(name)
             yield from EXTERNALS[name](self, args, kwargs, st, node)
             return
+        if name in REG.defs and self.expand_defs:
+            params, body, _ = REG.defs[name]
+            sub = st.fork()
+            sub.spec = True
+            sub.env = dict(st.env)
+            for p_, v_ in zip(params, args):
+                sub.env[p_] = v_
+            yield self.ev1(body, sub), st
+            return
         if name in REG.ufuncs:
+            self.ufuncs_used.add(name)
             argt, rett = REG.ufuncs[name]
             f = z3.Function(name, *([sort_of(t) for t in argt] + [sort_of(rett)]))
             yield unpack(st, f(*[pack(st, self.lift(a), t) for a, t in zip(args, argt)]), rett), st
